@@ -117,6 +117,7 @@ type gcase struct {
 	lTarget, lOrigin         string
 	lElems                   []string
 	lead                     int // 0: single path; 1: after a path without origin; 2: after a path with origin o2
+	split                    int // number of leaf elements carried in the notification prefix
 }
 
 func mkp(origin string, elems []string) *pb.Path {
@@ -139,7 +140,15 @@ func specContainGNMI() seqmc.Spec {
 							for _, lo := range []string{"", "o", "o2"} {
 								for _, le := range [][]string{{"a"}, {"a", "b"}, {"b"}, {"a", "a"}} {
 									for lead := 0; lead <= 2; lead++ {
-										cases = append(cases, gcase{tg, po, so, pe, se, lt, lo, le, lead})
+										// split: how many of the leaf's elements the notification
+										// carries in its PREFIX (the rest in the update path; with
+										// all of them in the prefix the update path has no elements)
+										for split := 0; split <= len(le); split++ {
+											if split > 0 && lead > 0 {
+												continue
+											}
+											cases = append(cases, gcase{tg, po, so, pe, se, lt, lo, le, lead, split})
+										}
 									}
 								}
 							}
@@ -153,7 +162,9 @@ func specContainGNMI() seqmc.Spec {
 		g := cases[i]
 		desc := fmt.Sprintf("%+v", g)
 		c := cache.New([]string{"t1", "t2"})
-		n := &pb.Notification{Timestamp: 1, Prefix: &pb.Path{Target: g.lTarget, Origin: g.lOrigin}, Update: []*pb.Update{{Path: mkp("", g.lElems), Val: &pb.TypedValue{Value: &pb.TypedValue_IntVal{IntVal: 1}}}}}
+		npre := mkp(g.lOrigin, g.lElems[:g.split])
+		npre.Target = g.lTarget
+		n := &pb.Notification{Timestamp: 1, Prefix: npre, Update: []*pb.Update{{Path: mkp("", g.lElems[g.split:]), Val: &pb.TypedValue{Value: &pb.TypedValue_IntVal{IntVal: 1}}}}}
 		var fed *ctree.Leaf
 		c.SetClient(func(l *ctree.Leaf) { fed = l })
 		if err := c.GnmiUpdate(n); err != nil {
@@ -209,7 +220,7 @@ func specOnce() seqmc.Spec {
 			sets = append(sets, [][]string{qs[i], qs[j]})
 		}
 	}
-	paths := [][]string{{"a"}, {"b"}, {"a", "b"}, {"a", "a"}, {"b", "a"}}
+	paths := [][]string{{"a"}, {"b"}, {"a", "b"}, {"a", "a"}, {"b", "a"}, {}} // {}: every element is in the prefix
 	type noti struct{ ups, dels [][]string }
 	var notis []noti
 	for _, p := range paths {
